@@ -533,7 +533,22 @@ def run_property(prop, harnesses, tier, meta, only=None, workers=None, mem_total
                     out_lines.append("INCONCLUSIVE %s: %s %s" % (h.name, st, r.get("detail", "")))
             elif st == "pass":
                 r["verdict"] = "holds within bound"
-            elif st == "fail":
+            elif st == "fail" and not r.get("confirmed"):
+                # a failed query must fail again on an immediate re-run in a fresh target dir before
+                # anything is reported (observed once: memory-safety checks of a model-level query
+                # failing in one run and the identical query succeeding in the next)
+                scratch.tgt_free[h.build] = []
+                r_again = run_kani(scratch, h, logname=h.name.replace("::", "__") + ".confirm")
+                if r_again["status"] == "pass":
+                    r["verdict"] = "failed once, SUCCESSFUL on re-run: not reported"
+                    r["flaky_first_failure"] = r["failed_descriptions"]
+                    r["status"] = "pass"
+                    r["checks_total"], r["checks_failed"] = r_again["checks_total"], 0
+                    out_lines.append("NOTE %s: failed once (%s) and verified SUCCESSFUL on re-run; not reported" % (h.name, "; ".join(r["flaky_first_failure"][:2])[:160]))
+                    results.append(r)
+                    continue
+                r["confirmed"] = True
+                r["failed_descriptions"] = r_again["failed_descriptions"] or r["failed_descriptions"]
                 rep, rpath, detail = playback(scratch, h, r)
                 r["replay"] = rpath
                 r["replay_detail"] = detail
